@@ -730,6 +730,9 @@ func (w *World) Apply(op Op) *Step {
 		res := a.Res
 		if m.Resized[a.Key] {
 			res = a.Resize
+		} else if a.BindResize && len(a.Resize) > 0 {
+			res = a.Resize
+			m.Resized[a.Key] = true
 		}
 		f = func() { w.sendAlloc([]*si.Allocation{w.askToSI(a, res, a.BindNode)}, nil) }
 		m.Keys[a.Key].State = "bound"
